@@ -135,6 +135,20 @@ Theorem C04_hunk_shape : forall M,
       /\ length r = length terms /\ 1 < length terms).
 Proof. exact resolve_hunk_shape. Qed.
 
+(** The hunks of a [MergeResult::Conflict]: resolved texts are non-empty and never adjacent
+    (adjacent resolved hunks are coalesced), unresolved hunks have the input's arity, and
+    term by term they concatenate to the result of [merge]. *)
+Theorem C04_conflict_shape : forall M,
+  (forall a b, valid_matching (length a) (length b) (M a b)) ->
+  forall (accept word : bool) (terms : list bytes) (hs : list (list bytes)),
+  Nat.odd (length terms) = true ->
+  merge_hunks M accept word terms = Conflict hs ->
+  Forall (fun h => match h with [c] => c <> [] | _ => length h = length terms /\ 1 < length terms end) hs
+  /\ no_adjacent_resolved hs = true
+  /\ forall t, t < length terms ->
+       concat (map (hunk_term t) hs) = nth t (merge M accept word terms) [].
+Proof. exact conflict_shape. Qed.
+
 (** Identical sides over two different bases are two different changes and stay conflicted
     (the documented meaning of "same change"): the general identical-sides law is false. *)
 Theorem C04_same_sides_general_refuted :
